@@ -167,7 +167,7 @@ def run_part(ck, tier):
     cfgs = configs()
     runs = [("exhaustive", dict(zset=[[1, 2]], ua=[0, 63], maxiter=1)),
             ("simulate", dict(zset=[[0, 1], [1, 2], [3, 4]], ua=[0, 1, 2, 3, 4, 31, 32, 63], maxiter=2,
-                              simulate="num=%d" % (120 if tier == "quick" else 5000), depth=24, seed_=seed() + 11))]
+                              simulate="num=%d" % (120 if tier == "quick" else 1200), depth=24, seed_=seed() + 11))]
     if tier == "thorough":
         runs.insert(1, ("exhaustive2", dict(zset=[[0, 1], [1, 2]], ua=[0, 3, 63], maxiter=1)))
     for label, kw in runs:
